@@ -2,6 +2,7 @@ package rules
 
 import (
 	"fmt"
+	"go/constant"
 	"go/token"
 	"go/types"
 
@@ -467,88 +468,39 @@ func c08(c *eng.Ctx) {
 	}
 	// SetState together with the helpers its body may have been spread over
 	region := c.W.Region(ss)
-	addFn := c.MustMethod(pkgRLStoreFC, "globalMaxInflight", "add")
 	isCountAddr := func(v ssa.Value) bool { return eng.FieldAddrOf(v, tInstanceState, "count") }
-	isAddTotal := func(ins ssa.Instruction) bool {
+	// the function that adds to the running total and answers count − max: `add` by name, or —
+	// should it be renamed — whichever function of the package other than SetState does the
+	// atomic add on the total with its own parameter
+	addFn := c.W.Method(pkgRLStoreFC, "globalMaxInflight", "add")
+	if addFn == nil || addFn.Blocks == nil {
+		addFn = nil
+		for _, fn := range c.W.FuncsOf(pkgRLStoreFC) {
+			if fn == ss || fn.Parent() != nil {
+				continue
+			}
+			for _, ci := range eng.CallsTo(fn, "sync/atomic.AddInt32") {
+				if a := eng.Args(ci); eng.FieldAddrOf(a[0], tGlobalMaxInflight, "count") {
+					if p, isP := a[1].(*ssa.Parameter); isP && p.Parent() == fn && addFn == nil {
+						addFn = fn
+					}
+				}
+			}
+		}
+	}
+	// an adjustment of the total: a call of that function, or the atomic add written in place
+	totalAmount := func(ins ssa.Instruction) (ssa.Value, bool) {
 		ci, ok := ins.(ssa.CallInstruction)
-		return ok && addFn != nil && eng.CalleeFn(ci) == addFn
-	}
-	regionCalls := func(names ...string) []ssa.CallInstruction {
-		var out []ssa.CallInstruction
-		for _, fn := range region {
-			out = append(out, eng.CallsTo(fn, names...)...)
+		if !ok {
+			return nil, false
 		}
-		return out
-	}
-	// the swap
-	var swap *ssa.Call
-	for _, ci := range regionCalls("sync/atomic.SwapInt32") {
-		if isCountAddr(eng.Args(ci)[0]) {
-			swap, _ = ci.(*ssa.Call)
+		if addFn != nil && eng.CalleeFn(ci) == addFn {
+			return eng.Args(ci)[0], true
 		}
-	}
-	if swap == nil {
-		c.Fail("R1b", ss, "swap of the instance count", ss.Pos(), "no atomic swap of instanceState.count found")
-		return
-	}
-	// body: the function holding the report's decision logic (SetState itself unless the tail
-	// was extracted into a helper)
-	body := swap.Parent()
-	cur := eng.Args(swap)[1]
-	// ---- R1b
-	{
-		always := eng.AlwaysAfter(swap, isAddTotal)
-		var first ssa.Instruction = eng.ReachAfter(swap, eng.PathQuery{Target: isAddTotal})
-		ok := always && first != nil
-		if ok {
-			d, isB := eng.Args(first.(ssa.CallInstruction))[0].(*ssa.BinOp)
-			ok = isB && d.Op == token.SUB && d.X == cur && d.Y == ssa.Value(swap)
+		if eng.IsCall(ins, "sync/atomic.AddInt32") && ins.Parent() != addFn && eng.FieldAddrOf(eng.Args(ci)[0], tGlobalMaxInflight, "count") {
+			return eng.Args(ci)[1], true
 		}
-		c.Check("R1b", ss, "swap ⇒ add(current − old)", swap.Pos(), ok, "after the instance count is replaced the running total must be adjusted by exactly current − old on every path")
-	}
-	// the value add() returned for this report
-	var addRes ssa.Value
-	if x := eng.ReachAfter(swap, eng.PathQuery{Target: isAddTotal}); x != nil {
-		addRes = eng.ResultValue(x.(ssa.CallInstruction))
-	}
-	// adjustments of the instance count after the swap (rollbacks)
-	nRollback := 0
-	for _, ci := range regionCalls("sync/atomic.AddInt32") {
-		if !isCountAddr(eng.Args(ci)[0]) {
-			continue
-		}
-		a := eng.Args(ci)[1]
-		paired := false
-		if nx := eng.ReachAfter(ci, eng.PathQuery{Target: isAddTotal}); nx != nil && eng.AlwaysAfter(ci, isAddTotal) {
-			b := eng.Args(nx.(ssa.CallInstruction))[0]
-			paired = sameExpr(a, b)
-		}
-		c.Check("R1b", ss, "count adjusted ⇒ total adjusted by the same amount", ci.Pos(), paired, "an adjustment of the instance count must be followed on every path by add() of the same amount on the total")
-		// ---- R2
-		if !c08After(swap, ci) {
-			continue
-		}
-		nRollback++
-		neg, isNeg := a.(*ssa.UnOp)
-		ok := isNeg && neg.Op == token.SUB && eng.HoldsAt(ci, func(r eng.Rel) bool {
-			r = eng.NormRel(r)
-			z, isZ := eng.IntConst(r.Y)
-			return c08SameVal(r.X, neg.X) && isZ && ((z == 0 && r.Op == token.GTR) || (z == 1 && r.Op == token.GEQ))
-		})
-		c.Check("R2", ss, "rollback undoes increases only", ci.Pos(), ok, "after the limit was lowered the total exceeds it: a rollback not restricted to δ > 0 also undoes every report that lowers an instance's count, so the total never comes down")
-		// an increase that overflows the limit must be undone, and the rollback is decided on the result
-		// of the atomic add (count − max after adding), not on a separate pre-check
-		onOverflow := addRes != nil && eng.HoldsAt(ci, func(r eng.Rel) bool {
-			r = eng.NormRel(r)
-			z, isZ := eng.IntConst(r.Y)
-			return c08SameVal(r.X, addRes) && isZ && ((z == 0 && r.Op == token.GTR) || (z == 1 && r.Op == token.GEQ))
-		})
-		c.Check("R2", ss, "overflowing increase is rolled back on the add's own result", ci.Pos(), onOverflow,
-			"the decision to undo must use the value returned by the atomic add of this report; a separate read of the total (check-then-act) lets concurrent reports of different instances all pass and together exceed the limit")
-	}
-	if nRollback == 0 {
-		c.Fail("R2", ss, "overflowing increase is rolled back on the add's own result", swap.Pos(),
-			"after swap+add no path undoes an increase that pushed the total over the limit: with concurrent reports (or a pre-check that raced) the accepted counts sum above the global limit")
+		return nil, false
 	}
 	// removal: delete paired with add(−count of the removed record)
 	for _, rf := range region {
@@ -560,10 +512,11 @@ func c08(c *eng.Ctx) {
 			key := ci.Common().Args[1]
 			for _, af := range region {
 				for _, ac := range eng.Calls(af) {
-					if !isAddTotal(ac) {
+					amount, isTotal := totalAmount(ac)
+					if !isTotal {
 						continue
 					}
-					neg, isNeg := eng.Args(ac)[0].(*ssa.UnOp)
+					neg, isNeg := amount.(*ssa.UnOp)
 					if !isNeg || neg.Op != token.SUB {
 						continue
 					}
@@ -586,169 +539,23 @@ func c08(c *eng.Ctx) {
 		}
 	}
 
-	// ---- R3
-	// the request id and the result positions as seen by the body
-	reqID := ssa.Value(ss.Params[2])
-	accIdx, errIdx := 0, 2
-	if body != ss {
-		reqID = nil
-		for _, p := range body.Params {
-			if c08Up(p) == ssa.Value(ss.Params[2]) {
-				reqID = p
-			}
-		}
-		var fwd bool
-		accIdx, errIdx, fwd = c08Forwarded(ss, body)
-		if reqID == nil || !fwd {
-			c.Undecided("R3", ss, "request-id test", body.Pos(), "the report's decision logic sits in a helper whose request id parameter or results cannot be related to SetState's")
-			c08Acquire(c)
-			c08TokenBucket(c)
-			return
-		}
-	}
-	var idLoad *ssa.Call
-	for _, ci := range eng.CallsTo(body, "sync/atomic.LoadInt64") {
-		if eng.FieldAddrOf(eng.Args(ci)[0], tInstanceState, "requestId") {
-			idLoad, _ = ci.(*ssa.Call)
-		}
-	}
-	// touching the counts or the recorded id: directly, or inside a called repository function
-	touchesState := func(i ssa.Instruction) bool {
-		direct := func(x ssa.Instruction) bool {
-			if x == ssa.Instruction(swap) || isAddTotal(x) {
-				return true
-			}
-			if !eng.IsCall(x, "sync/atomic.StoreInt64", "sync/atomic.AddInt32", "sync/atomic.SwapInt32", "sync/atomic.StoreInt32") {
-				return false
-			}
-			a0 := eng.Args(x.(ssa.CallInstruction))[0]
-			return isCountAddr(a0) || eng.FieldAddrOf(a0, tInstanceState, "requestId") || eng.FieldAddrOf(a0, tGlobalMaxInflight, "count")
-		}
-		if direct(i) {
-			return true
-		}
-		if ci, isC := i.(*ssa.Call); isC {
-			if g := eng.CalleeFn(ci); g != nil && g.Blocks != nil && g.Pkg == ss.Pkg {
-				return c13ContainsCall(g, func(x ssa.CallInstruction) bool { return direct(x) }, 2)
-			}
-		}
-		return false
-	}
-	if idLoad == nil {
-		c.Fail("R3", ss, "request-id test", ss.Pos(), "the recorded request id is never read")
-	} else {
-		found := false
-		for _, b := range body.Blocks {
-			iff, ok := b.Instrs[len(b.Instrs)-1].(*ssa.If)
-			if !ok {
-				continue
-			}
-			r := eng.RelOf(iff.Cond, true)
-			x, y, op := r.X, r.Y, r.Op
-			if x == ssa.Value(idLoad) && y == reqID {
-				x, y, op = y, x, eng.FlipOp(op)
-			}
-			if x != reqID || y != ssa.Value(idLoad) {
-				continue
-			}
-			found = true
-			// successor taken when requestId <= old
-			var stale *ssa.BasicBlock
-			switch op {
-			case token.LEQ:
-				stale = b.Succs[0]
-			case token.GTR:
-				stale = b.Succs[1]
-			default:
-				c.Fail("R3", ss, "request-id test", iff.Pos(), "the comparison must refuse ids that are not strictly newer (requestId <= recorded)")
-				continue
-			}
-			touch := eng.ReachFromBlock(stale, eng.PathQuery{Target: touchesState})
-			retOK := false
-			if x := eng.ReachFromBlock(stale, eng.PathQuery{Target: eng.IsExit}); x != nil {
-				if ret, isR := x.(*ssa.Return); isR {
-					res := eng.ReturnResults(ret)
-					retOK = len(res) > accIdx && len(res) > errIdx && eng.IsBoolConst(res[accIdx], false) && c.Slicer().DerivesFrom(res[errIdx], func(v ssa.Value) bool {
-						g, isG := v.(*ssa.Global)
-						return isG && g.Name() == "RequestIDTooOld"
-					})
-				}
-			}
-			c.Check("R3", ss, "stale id ⇒ refused, nothing changed", iff.Pos(), touch == nil && retOK, "a report whose request id is not newer than the recorded one returns (false, _, RequestIDTooOld) before the swap, the total and the recorded id are touched")
-		}
-		if !found {
-			c.Fail("R3", ss, "request-id test", ss.Pos(), "no comparison of the request id with the recorded id")
-		}
-		// the id test precedes the swap whenever an id is given
-		var idGiven *ssa.If
-		for _, b := range body.Blocks {
-			if iff, ok := b.Instrs[len(b.Instrs)-1].(*ssa.If); ok {
-				r := eng.NormRel(eng.RelOf(iff.Cond, true))
-				if z, isZ := eng.IntConst(r.Y); r.X == reqID && isZ && z == 0 && r.Op == token.GTR {
-					idGiven = iff
-				}
-			}
-		}
-		before := eng.ReachFromEntry(body, eng.PathQuery{
-			Target: func(i ssa.Instruction) bool { return i == ssa.Instruction(swap) },
-			Avoid:  func(i ssa.Instruction) bool { return i == ssa.Instruction(idLoad) },
-			BlockEdge: func(from *ssa.BasicBlock, idx int) bool {
-				return idGiven != nil && from == idGiven.Block() && idx == 1
-			},
-		}) == nil
-		c.Check("R3", ss, "id test before the swap", swap.Pos(), before, "whenever a request id is given the swap is reached only through the id test")
-		// the stored id is the request's, stored only on the newer edge
-		for _, ci := range regionCalls("sync/atomic.StoreInt64") {
-			if !eng.FieldAddrOf(eng.Args(ci)[0], tInstanceState, "requestId") {
-				continue
-			}
-			ok := c08SameVal(eng.Args(ci)[1], reqID) && eng.HoldsAt(ci, func(r eng.Rel) bool {
-				return (r.X == reqID && r.Y == ssa.Value(idLoad) && r.Op == token.GTR) || (r.X == ssa.Value(idLoad) && r.Y == reqID && r.Op == token.LSS)
-			})
-			c.Check("R3", ss, "recorded id only moves forward", ci.Pos(), ok, "")
-		}
-	}
-	// accept = true only when not over the limit
-	nAcc := 0
-	eng.Instrs(body, func(ins ssa.Instruction) {
-		ret, ok := ins.(*ssa.Return)
-		if !ok || ret.Block() == body.Recover {
-			return
-		}
-		res := eng.ReturnResults(ret)
-		if len(res) <= accIdx || !c08MayBeTrue(res[accIdx], 3) {
-			return
-		}
-		nAcc++
-		// the answer can be true only where add(δ) reported ≤ 0: a fact of the returning block, or —
-		// for a computed answer — a fact implied by the answer being true
-		notOver := func(r eng.Rel) bool {
-			r = eng.NormRel(r)
-			z, isZ := eng.IntConst(r.Y)
-			return r.X == addRes && isZ && ((z == 0 && (r.Op == token.LEQ || r.Op == token.LSS)) || (z == 1 && r.Op == token.LSS))
-		}
-		ok2 := addRes != nil && eng.HoldsAt(ret, notOver)
-		if !ok2 && addRes != nil && !eng.IsBoolConst(res[accIdx], true) {
-			for _, r := range eng.ImpliedRels(res[accIdx], true) {
-				if notOver(r) {
-					ok2 = true
-				}
-			}
-		}
-		c.Check("R3", ss, "accept only when total ≤ limit", ret.Pos(), ok2, "accept=true is returned only on the edge where add(δ) reports count − max ≤ 0")
-	})
-	if nAcc == 0 {
-		c.Fail("R3", ss, "accept only when total ≤ limit", ss.Pos(), "no accepting return")
-	}
+	// ---- the report path (current ≥ 0): R1b, R2, R3 decided by forcing
+	c08Report(c, ss)
+
 	// add() returns count − max of the atomically updated total
 	if addFn != nil {
 		ok := false
 		eng.Instrs(addFn, func(ins ssa.Instruction) {
-			if ret, isR := ins.(*ssa.Return); isR {
+			if ret, isR := ins.(*ssa.Return); isR && len(ret.Results) == 1 {
 				if d, isB := ret.Results[0].(*ssa.BinOp); isB && d.Op == token.SUB {
 					cc, _ := eng.CallResultOf(d.X)
 					mc, _ := eng.CallResultOf(d.Y)
-					ok = cc != nil && eng.IsCall(cc, "sync/atomic.AddInt32") && eng.FieldAddrOf(eng.Args(cc)[0], tGlobalMaxInflight, "count") && eng.Args(cc)[1] == ssa.Value(addFn.Params[1]) &&
+					amountOK := false
+					if cc != nil && eng.IsCall(cc, "sync/atomic.AddInt32") {
+						p, isP := eng.Args(cc)[1].(*ssa.Parameter)
+						amountOK = isP && p.Parent() == addFn && p != addFn.Params[0]
+					}
+					ok = amountOK && eng.FieldAddrOf(eng.Args(cc)[0], tGlobalMaxInflight, "count") &&
 						mc != nil && eng.IsCall(mc, "sync/atomic.LoadInt32") && eng.FieldAddrOf(eng.Args(mc)[0], tGlobalMaxInflight, "max")
 				}
 			}
@@ -758,6 +565,512 @@ func c08(c *eng.Ctx) {
 
 	c08Acquire(c)
 	c08TokenBucket(c)
+}
+
+// ---------------------------------------------------------------------------------------
+// The report path of SetState, decided by forcing.
+//
+// The rules about a report (current ≥ 0) are of the form "in situation X every path does Y":
+// a stale id is refused before anything is touched, the swap is followed by add(current − old),
+// an overflowing increase — and nothing else — is undone, accept is answered only when the
+// total does not exceed the limit. They are decided on the paths of SetState enumerated by the
+// abstract interpreter (eng.Interp) with the situation pinned to concrete values:
+//
+//	request id = 5, current = 3                         (parameters)
+//	recorded id read by each site ∈ {3, 5, 9}           (fresh / equal / newer)
+//	old count returned by the swap ∈ {1, 5}             (increase by 2 / decrease by 2)
+//	atomic add on the total answers max + over, over ∈ {1, 0, −1}; the limit reads max
+//
+// The interpreter follows the functions of the package SetState calls, so the verdicts do not
+// depend on which helper holds the id test, the swap or the roll-back, on how results travel
+// (tuple results, boolean signals) or on the form of the branches. The atomic operations are
+// recognised by callee and operand (field of instanceState / globalMaxInflight), never by
+// position; a value the code reads in any other way (e.g. a second look at the total) stays
+// unknown, so a decision based on it yields both outcomes and fails the rule.
+
+const (
+	c08Req    = 5
+	c08Cur    = 3
+	c08Max    = 100
+	c08TooOld = 0x7e57 // stands for the error value RequestIDTooOld
+)
+
+type c08Ev struct {
+	kind string
+	call *ssa.Call
+	val  eng.AV // the value operand (new id, new count, amount)
+}
+
+type c08Scenario struct {
+	loads map[*ssa.Call]int64 // value each read of the recorded id answers
+	old   int64
+	over  int64
+}
+
+func (sc c08Scenario) String() string {
+	ids := ""
+	for _, v := range sc.loads {
+		ids += fmt.Sprintf(" %d", v)
+	}
+	return fmt.Sprintf("request id %d, recorded id read as%s, count %d → %d, total − max = %d after the add", c08Req, ids, sc.old, c08Cur, sc.over)
+}
+
+type c08Path struct {
+	sc  c08Scenario
+	evs []c08Ev
+	pr  eng.PathResult
+}
+
+// c08Classify names the atomic operation a call performs on the state of the flow control;
+// arg is the index of its value operand (-1: none).
+func c08Classify(call *ssa.Call) (kind string, arg int) {
+	if call == nil || call.Call.IsInvoke() || call.Call.StaticCallee() == nil || call.Call.StaticCallee().Pkg == nil || call.Call.StaticCallee().Pkg.Pkg.Path() != "sync/atomic" {
+		return "", -1
+	}
+	a := call.Call.Args
+	if len(a) == 0 {
+		return "", -1
+	}
+	name := call.Call.StaticCallee().Name()
+	// the operand is the field's address, or — in a function that is handed the address (a method
+	// turned into a function taking what it needs) — a parameter every call site binds to it
+	isField := func(typ, field string) bool {
+		return c13AllUp(eng.Current, a[0], eng.LiftDepth, func(v ssa.Value) bool { return eng.FieldAddrOf(v, typ, field) })
+	}
+	switch {
+	case isField(tInstanceState, "requestId"):
+		switch name {
+		case "LoadInt64":
+			return "idread", -1
+		case "SwapInt64":
+			return "idswap", 1
+		case "StoreInt64":
+			return "idwrite", 1
+		}
+		return "idother", -1
+	case isField(tInstanceState, "count"):
+		switch name {
+		case "SwapInt32":
+			return "swap", 1
+		case "AddInt32":
+			return "adj", 1
+		case "LoadInt32":
+			return "", -1
+		}
+		return "cntother", -1
+	case isField(tGlobalMaxInflight, "count"):
+		switch name {
+		case "AddInt32":
+			return "total", 1
+		case "LoadInt32":
+			return "", -1
+		}
+		return "totother", -1
+	case isField(tGlobalMaxInflight, "max"):
+		if name == "LoadInt32" {
+			return "max", -1
+		}
+	}
+	return "", -1
+}
+
+func c08Touches(kind string) bool {
+	switch kind {
+	case "idswap", "idwrite", "idother", "swap", "adj", "cntother", "total", "totother":
+		return true
+	}
+	return false
+}
+
+// c08Run enumerates the paths of SetState in one scenario.
+func c08Run(c *eng.Ctx, ss *ssa.Function, sc c08Scenario) ([]c08Path, error) {
+	in := &eng.Interp{W: c.W, Depth: 4, MaxPaths: 1 << 14}
+	in.FollowCall = func(f *ssa.Function) bool { return f.Pkg == ss.Pkg }
+	in.PinPath = func(path string) (eng.AV, bool) {
+		if path == "global:RequestIDTooOld" {
+			return eng.AVInt(c08TooOld), true
+		}
+		return eng.AV{}, false
+	}
+	in.PinCall = func(call *ssa.Call, idx int, st *eng.State) (eng.AV, bool) {
+		kind, arg := c08Classify(call)
+		if kind == "" {
+			return eng.AV{}, false
+		}
+		if idx == -1 && kind != "max" {
+			v := eng.AV{}
+			if arg >= 0 && arg < len(call.Call.Args) {
+				v = in.Eval(call.Call.Args[arg], st)
+			}
+			st.NoteNext("c08", v)
+		}
+		switch kind {
+		case "idread", "idswap":
+			return eng.AVInt(sc.loads[call]), true
+		case "swap":
+			return eng.AVInt(sc.old), true
+		case "total":
+			return eng.AVInt(c08Max + sc.over), true
+		case "max":
+			return eng.AVInt(c08Max), true
+		}
+		return eng.AV{}, false
+	}
+	args := make([]eng.AV, len(ss.Params))
+	args[0] = eng.AV{K: eng.NonNilV}
+	args[2] = eng.AVInt(c08Req)
+	args[3] = eng.AVInt(c08Cur)
+	prs, err := in.Run(ss, args)
+	if err != nil {
+		return nil, err
+	}
+	var out []c08Path
+	for _, pr := range prs {
+		if pr.Panicked {
+			continue
+		}
+		if pr.LoopCut || pr.Final == nil {
+			return nil, fmt.Errorf("a path through SetState runs into a loop")
+		}
+		p := c08Path{sc: sc, pr: pr}
+		seq := pr.Final.NotedSeq("c08")
+		k := 0
+		for _, ci := range pr.Calls {
+			call, ok := ci.(*ssa.Call)
+			if !ok {
+				continue
+			}
+			kind, _ := c08Classify(call)
+			if kind == "" || kind == "max" {
+				continue
+			}
+			if k >= len(seq) {
+				return nil, fmt.Errorf("inconsistent trace")
+			}
+			p.evs = append(p.evs, c08Ev{kind, call, seq[k]})
+			k++
+		}
+		out = append(out, p)
+	}
+	return out, nil
+}
+
+func c08IntOf(a eng.AV) (int64, bool) {
+	if a.K != eng.ConstV || a.C == nil || a.C.Kind() != constant.Int {
+		return 0, false
+	}
+	return constant.Int64Val(a.C)
+}
+
+// c08Report decides R1b (swap/adjustment pairing), R2 and R3 for the report path of SetState.
+func c08Report(c *eng.Ctx, ss *ssa.Function) {
+	if len(ss.Params) != 4 || ss.Signature.Results().Len() != 3 {
+		c.Undecided("R3", ss, "request-id test", ss.Pos(), "SetState no longer has the shape (instance, requestId, current) → (accept, limit, error)")
+		return
+	}
+	// the sites that read the recorded id (anywhere in the package: the interpreter decides which run)
+	var idSites []*ssa.Call
+	hasSwap := false
+	for _, fn := range c.W.FuncsOf(pkgRLStoreFC) {
+		for _, ci := range eng.Calls(fn) {
+			call, _ := ci.(*ssa.Call)
+			switch kind, _ := c08Classify(call); kind {
+			case "idread", "idswap":
+				idSites = append(idSites, call)
+			case "swap":
+				hasSwap = true
+			}
+		}
+	}
+	if !hasSwap {
+		c.Fail("R1b", ss, "swap of the instance count", ss.Pos(), "no atomic swap of instanceState.count found")
+		return
+	}
+	if len(idSites) > 3 {
+		c.Undecided("R3", ss, "request-id test", ss.Pos(), "the recorded request id is read at more than three sites")
+		return
+	}
+	// group A: every combination of fresh / equal / newer recorded ids; group B: the outcomes of the add
+	var groupA, groupB [][]c08Path
+	var runErr error
+	run := func(sc c08Scenario) []c08Path {
+		ps, err := c08Run(c, ss, sc)
+		if err != nil {
+			runErr = err
+		}
+		return ps
+	}
+	combos := [][]int64{{}}
+	for range idSites {
+		var next [][]int64
+		for _, cb := range combos {
+			for _, v := range []int64{3, c08Req, 9} {
+				next = append(next, append(append([]int64{}, cb...), v))
+			}
+		}
+		combos = next
+	}
+	for _, cb := range combos {
+		loads := map[*ssa.Call]int64{}
+		for i, s := range idSites {
+			loads[s] = cb[i]
+		}
+		groupA = append(groupA, run(c08Scenario{loads, 1, -1}))
+	}
+	fresh := map[*ssa.Call]int64{}
+	for _, s := range idSites {
+		fresh[s] = 3
+	}
+	for _, old := range []int64{1, 5} {
+		for _, over := range []int64{1, 0, -1} {
+			groupB = append(groupB, run(c08Scenario{fresh, old, over}))
+		}
+	}
+	if runErr != nil {
+		for _, k := range []string{"stale id ⇒ refused, nothing changed", "accept only when total ≤ limit"} {
+			c.Undecided("R3", ss, k, ss.Pos(), "the paths of SetState cannot be enumerated: "+runErr.Error())
+		}
+		c.Undecided("R2", ss, "overflowing increase is rolled back on the add's own result", ss.Pos(), "the paths of SetState cannot be enumerated: "+runErr.Error())
+		return
+	}
+	all := append(append([][]c08Path{}, groupA...), groupB...)
+	firstOf := func(p c08Path, kinds ...string) int {
+		for i, e := range p.evs {
+			for _, k := range kinds {
+				if e.kind == k {
+					return i
+				}
+			}
+		}
+		return -1
+	}
+	describe := func(p c08Path) string {
+		s := p.sc.String() + ": a path executes"
+		if len(p.evs) == 0 {
+			s += " nothing"
+		}
+		for _, e := range p.evs {
+			s += " " + e.kind + "(" + e.val.String() + ")"
+		}
+		s += " and returns"
+		for _, r := range p.pr.Ret {
+			s += " " + r.String()
+		}
+		return s
+	}
+	var swapPos = ss.Pos()
+	for _, g := range all {
+		for _, p := range g {
+			if i := firstOf(p, "swap"); i >= 0 {
+				swapPos = p.evs[i].call.Pos()
+			}
+		}
+	}
+
+	// ---- R1b: swap ⇒ add(current − old); count adjusted ⇒ total adjusted by the same amount
+	{
+		ok, detail, n := true, "after the instance count is replaced the running total must be adjusted by exactly current − old on every path", 0
+		ok2, detail2 := true, "an adjustment of the instance count must be followed on every path by add() of the same amount on the total"
+		for _, g := range all {
+			for _, p := range g {
+				i := firstOf(p, "swap")
+				if i >= 0 {
+					n++
+					nv, isK := c08IntOf(p.evs[i].val)
+					good := false
+					for _, e := range p.evs[i+1:] {
+						if e.kind == "total" {
+							good = isK && e.val.IsInt(nv-p.sc.old)
+							break
+						}
+					}
+					if !good && ok {
+						ok, detail = false, detail+"; "+describe(p)
+					}
+				}
+				for j, e := range p.evs {
+					if e.kind != "adj" {
+						continue
+					}
+					v, isK := c08IntOf(e.val)
+					paired := false
+					for _, f := range p.evs[j+1:] {
+						if f.kind == "total" && isK && f.val.IsInt(v) {
+							paired = true
+						}
+					}
+					if !paired && ok2 {
+						ok2, detail2 = false, detail2+"; "+describe(p)
+					}
+				}
+			}
+		}
+		if n == 0 {
+			ok, detail = false, "no path of a report replaces the instance count"
+		}
+		c.Check("R1b", ss, "swap ⇒ add(current − old)", swapPos, ok, detail)
+		c.Check("R1b", ss, "count adjusted ⇒ total adjusted by the same amount", swapPos, ok2, detail2)
+	}
+
+	// ---- R2
+	{
+		okDec, dDec := true, "after the limit was lowered the total exceeds it: a rollback not restricted to δ > 0 also undoes every report that lowers an instance's count, so the total never comes down"
+		okInc, dInc := true, "the decision to undo must use the value returned by the atomic add of this report; a separate read of the total (check-then-act) lets concurrent reports of different instances all pass and together exceed the limit"
+		nInc := 0
+		for _, g := range groupB {
+			for _, p := range g {
+				i := firstOf(p, "swap")
+				if i < 0 {
+					continue
+				}
+				var sum int64
+				known, other := true, false
+				for _, e := range p.evs[i+1:] {
+					switch e.kind {
+					case "adj":
+						v, isK := c08IntOf(e.val)
+						known = known && isK
+						sum += v
+					case "cntother", "swap":
+						other = true
+					}
+				}
+				delta := c08Cur - p.sc.old
+				switch {
+				case p.sc.over > 0 && delta > 0:
+					nInc++
+					if (other || !known || sum != -delta) && okInc {
+						okInc, dInc = false, "an increase that pushed the total over the limit is not undone; "+dInc+"; "+describe(p)
+					}
+				case p.sc.over > 0:
+					if (other || !known || sum != 0) && okDec {
+						okDec, dDec = false, dDec+"; "+describe(p)
+					}
+				default:
+					if (other || !known || sum != 0) && okInc {
+						okInc, dInc = false, "the count is rolled back although the add of this report did not exceed the limit; "+dInc+"; "+describe(p)
+					}
+				}
+			}
+		}
+		if nInc == 0 {
+			okInc, dInc = false, "after swap+add no path undoes an increase that pushed the total over the limit: with concurrent reports (or a pre-check that raced) the accepted counts sum above the global limit"
+		}
+		c.Check("R2", ss, "rollback undoes increases only", swapPos, okDec, dDec)
+		c.Check("R2", ss, "overflowing increase is rolled back on the add's own result", swapPos, okInc, dInc)
+	}
+
+	// ---- R3
+	retIs := func(p c08Path, idx int, pred func(eng.AV) bool) bool {
+		return idx < len(p.pr.Ret) && pred(p.pr.Ret[idx])
+	}
+	tooOld := func(a eng.AV) bool { return a.IsInt(c08TooOld) }
+	{
+		nRead := 0
+		okStale, dStale := true, "a report whose request id is not newer than the recorded one returns (false, _, RequestIDTooOld) before the swap, the total and the recorded id are touched"
+		okBefore, dBefore := true, "whenever a request id is given the swap is reached only through the id test"
+		okFwd, dFwd, nWrite := true, "the recorded id is replaced only by the id of a report that was found newer than it", 0
+		for gi, g := range all {
+			inA := gi < len(groupA)
+			for _, p := range g {
+				allFresh := true
+				for _, v := range p.sc.loads {
+					if v >= c08Req {
+						allFresh = false
+					}
+				}
+				if !inA {
+					// the outcomes of the add: a newer id that is processed is recorded whatever the
+					// report's fate (also when the increase is rolled back)
+					if allFresh && firstOf(p, "swap") >= 0 && firstOf(p, "idwrite", "idswap") < 0 && okFwd {
+						okFwd, dFwd = false, "a newer id is processed without being recorded: the next report with the same id is processed again; "+describe(p)
+					}
+					continue
+				}
+				ir := firstOf(p, "idread", "idswap")
+				if ir >= 0 {
+					nRead++
+				}
+				// refused ⇒ nothing changed
+				if retIs(p, 2, tooOld) {
+					for _, e := range p.evs {
+						if c08Touches(e.kind) && okStale {
+							okStale, dStale = false, dStale+"; "+describe(p)
+						}
+					}
+				}
+				// stale ⇒ refused
+				if ir >= 0 && p.sc.loads[p.evs[ir].call] >= c08Req {
+					if !(retIs(p, 0, func(a eng.AV) bool { return a.IsBool(false) }) && retIs(p, 2, tooOld)) && okStale {
+						okStale, dStale = false, dStale+"; "+describe(p)
+					}
+				}
+				// the id test precedes the swap
+				if is := firstOf(p, "swap"); is >= 0 && (ir < 0 || ir > is) && okBefore {
+					okBefore, dBefore = false, dBefore+"; "+describe(p)
+				}
+				// the recorded id only moves forward
+				last := int64(-1)
+				seen := false
+				wrote := false
+				for _, e := range p.evs {
+					switch e.kind {
+					case "idread":
+						last, seen = p.sc.loads[e.call], true
+					case "idswap", "idwrite":
+						nWrite++
+						wrote = true
+						if e.kind == "idswap" {
+							last, seen = p.sc.loads[e.call], true
+						}
+						if !(seen && last < c08Req && e.val.IsInt(c08Req)) && okFwd {
+							okFwd, dFwd = false, dFwd+"; "+describe(p)
+						}
+					case "idother":
+						if okFwd {
+							okFwd, dFwd = false, "the recorded id is written through an operation the rule does not classify; "+describe(p)
+						}
+					}
+				}
+				if allFresh && firstOf(p, "swap") >= 0 && !wrote && okFwd {
+					okFwd, dFwd = false, "a newer id is processed without being recorded: the next report with the same id is processed again; "+describe(p)
+				}
+			}
+		}
+		if nRead == 0 {
+			c.Fail("R3", ss, "request-id test", ss.Pos(), "the recorded request id is never read")
+		} else {
+			c.Check("R3", ss, "stale id ⇒ refused, nothing changed", swapPos, okStale, dStale)
+			c.Check("R3", ss, "id test before the swap", swapPos, okBefore, dBefore)
+			if nWrite == 0 {
+				okFwd, dFwd = false, "the id of a processed report is never recorded"
+			}
+			c.Check("R3", ss, "recorded id only moves forward", swapPos, okFwd, dFwd)
+		}
+	}
+	{
+		ok, detail := true, "accept=true is returned only on the edge where add(δ) reports count − max ≤ 0"
+		nAcc := 0
+		for _, g := range groupB {
+			for _, p := range g {
+				if firstOf(p, "swap") < 0 {
+					continue
+				}
+				isFalse := retIs(p, 0, func(a eng.AV) bool { return a.IsBool(false) })
+				if !isFalse {
+					nAcc++
+				}
+				if p.sc.over > 0 && !isFalse && ok {
+					ok, detail = false, detail+"; "+describe(p)
+				}
+			}
+		}
+		if nAcc == 0 {
+			c.Fail("R3", ss, "accept only when total ≤ limit", ss.Pos(), "no accepting return")
+		} else {
+			c.Check("R3", ss, "accept only when total ≤ limit", swapPos, ok, detail)
+		}
+	}
 }
 
 // sameExpr compares two values structurally (same SSA value, or the same unary/binary
@@ -834,17 +1147,6 @@ func c08LiftTo(ins ssa.Instruction, fn *ssa.Function, depth int) []ssa.Instructi
 	return out
 }
 
-// c08After: b can execute after a — in a's function, or in a helper called from there after a.
-func c08After(a, b ssa.Instruction) bool {
-	for _, site := range c08LiftTo(b, a.Parent(), eng.LiftDepth) {
-		site := site
-		if eng.ReachAfter(a, eng.PathQuery{Target: func(i ssa.Instruction) bool { return i == site }}) != nil {
-			return true
-		}
-	}
-	return false
-}
-
 // c08SameHold: a and b execute in one hold of the table's lock — one follows the other without a
 // release in between (a helper call during which the lock may be released counts as a release).
 func c08SameHold(tc *tableChecker, a, b ssa.Instruction) bool {
@@ -868,85 +1170,6 @@ func c08SameHold(tc *tableChecker, a, b ssa.Instruction) bool {
 		return false
 	}
 	return try(a, b) || try(b, a)
-}
-
-// c08MayBeTrue: boolean v can be true — it is not the constant false, nor the result of a
-// repository function all of whose returns give (recursively) false at that position
-// (`return f.remove(instance)` with remove answering (false, -1, nil) everywhere).
-func c08MayBeTrue(v ssa.Value, depth int) bool {
-	if eng.IsBoolConst(v, false) {
-		return false
-	}
-	call, idx := eng.CallResultOf(v)
-	if call == nil || depth <= 0 {
-		return true
-	}
-	if idx < 0 {
-		idx = 0
-	}
-	g := call.Call.StaticCallee()
-	if g == nil || g.Blocks == nil {
-		return true
-	}
-	may := false
-	eng.Instrs(g, func(ins ssa.Instruction) {
-		ret, ok := ins.(*ssa.Return)
-		if !ok || ret.Block() == g.Recover {
-			return
-		}
-		res := eng.ReturnResults(ret)
-		if idx >= len(res) || c08MayBeTrue(res[idx], depth-1) {
-			may = true
-		}
-	})
-	return may
-}
-
-// c08Forwarded: SetState returns the results of the helper `body` unchanged; it gives the result
-// positions of the accept flag and of the error in body's signature.
-func c08Forwarded(ss, body *ssa.Function) (accIdx, errIdx int, ok bool) {
-	rs := body.Signature.Results()
-	accIdx, errIdx = -1, -1
-	for i := 0; i < rs.Len(); i++ {
-		if b, isB := rs.At(i).Type().Underlying().(*types.Basic); isB && b.Info()&types.IsBoolean != 0 && accIdx < 0 {
-			accIdx = i
-		}
-		if c13IsErrorType(rs.At(i).Type()) {
-			errIdx = i
-		}
-	}
-	if accIdx < 0 || errIdx < 0 {
-		return 0, 0, false
-	}
-	sites := eng.CallsToFn(ss, body)
-	if len(sites) == 0 {
-		return 0, 0, false
-	}
-	for _, s := range sites {
-		call, isCall := s.(*ssa.Call)
-		if !isCall {
-			return 0, 0, false
-		}
-		bad := eng.ReachAfter(call, eng.PathQuery{Target: func(i ssa.Instruction) bool {
-			ret, isR := i.(*ssa.Return)
-			if !isR {
-				return false
-			}
-			res := eng.ReturnResults(ret)
-			if len(res) != 3 {
-				return true
-			}
-			isExt := func(v ssa.Value, idx int) bool {
-				e, isE := v.(*ssa.Extract)
-				return isE && e.Tuple == ssa.Value(call) && e.Index == idx
-			}
-			return !isExt(res[0], accIdx) || !isExt(res[2], errIdx)
-		}})
-		if bad != nil {
-			return 0, 0, false
-		}
-	}
-	return accIdx, errIdx, true
 }
 
 // c08Acquire: R4 and R5 in DoAcquire (its closures and extracted helpers).
@@ -999,18 +1222,32 @@ func c08Acquire(c *eng.Ctx) {
 				shape = true
 			}
 			c.Check("R5", fn, "amount tried ∈ {asked, asked/2ᵏ}", call.Pos(), shape, "each grant lies between 0 and the amount asked")
-			// the stored Limit under accept is that same amount
+			// the Limit answered under accept is that same amount: some store into the result's Limit
+			// — in DoAcquire or a helper — takes a value one definition of which is the amount of
+			// this very call, and takes that definition only when the call succeeded (a guard of the
+			// store, of the return statement through which a helper hands the amount out, or of the
+			// join edge that selects it)
 			okStore := false
-			for _, st := range eng.StoresToField([]*ssa.Function{fn}, pkgV1alpha1+".RateLimitAcquireResult", "Limit") {
-				if st.Val == amount && eng.ReachAfter(call, eng.PathQuery{Target: func(i ssa.Instruction) bool { return i == ssa.Instruction(st) }}) != nil {
-					// guarded by the Accept value that was set from this call
-					g := eng.HoldsAt(st, func(r eng.Rel) bool {
-						return eng.IsBoolConst(r.Y, true) && r.Op == token.EQL && c.Slicer().DerivesFrom(r.X, func(v ssa.Value) bool { return v == ssa.Value(call) })
-					})
+			accepted := func(r eng.Rel) bool {
+				return eng.IsBoolConst(r.Y, true) && r.Op == token.EQL && c.Slicer().DerivesFrom(r.X, func(v ssa.Value) bool { return v == ssa.Value(call) })
+			}
+			for _, st := range eng.StoresToField(c.W.Region(da), pkgV1alpha1+".RateLimitAcquireResult", "Limit") {
+				guardedStore := eng.HoldsAt(st, accepted)
+				eng.WalkDefs(st.Val, nil, func(d eng.EnvValue, via []eng.Via) bool {
+					if d.V != amount {
+						return !okStore
+					}
+					g := guardedStore
+					for _, v := range via {
+						if eng.HoldsAt(v.At, accepted) {
+							g = true
+						}
+					}
 					if g {
 						okStore = true
 					}
-				}
+					return false
+				})
 			}
 			c.Check("R5", fn, "granted amount = amount taken from the bucket", call.Pos(), okStore, "the Limit answered on accept must be the n passed to the TryAcquireN call that succeeded")
 		}
@@ -1022,15 +1259,26 @@ func c08Acquire(c *eng.Ctx) {
 
 // c08TokenBucket: R6.
 func c08TokenBucket(c *eng.Ctx) {
-	if ctor := c.MustFunc(pkgRLStoreFC, "newTokenBucketFlowControl"); ctor != nil {
+	// the constructor of the server bucket: by name, or the package-level function that builds the
+	// rate limiter (Resize, which rebuilds it, is a method)
+	ctor := c13Anchor(c, pkgRLStoreFC, "", "newTokenBucketFlowControl", func(fn *ssa.Function) bool {
+		return fn.Signature.Recv() == nil && len(eng.CallsTo(fn, "golang.org/x/time/rate.NewLimiter")) > 0
+	})
+	if ctor != nil && len(ctor.Params) >= 2 {
+		// (qps, burst) are the constructor's last two parameters
+		qps, burst := ctor.Params[len(ctor.Params)-2], ctor.Params[len(ctor.Params)-1]
 		for _, ci := range eng.CallsTo(ctor, "golang.org/x/time/rate.NewLimiter") {
 			a := eng.Args(ci)
-			ok := len(a) == 2 && convOf(a[0]) == ssa.Value(ctor.Params[2]) && convOf(a[1]) == ssa.Value(ctor.Params[3])
+			ok := len(a) == 2 && convOf(a[0]) == ssa.Value(qps) && convOf(a[1]) == ssa.Value(burst)
 			c.Check("R6", ctor, "NewLimiter(Limit(qps), burst)", ci.Pos(), ok, "rate and burst must not be swapped or replaced")
 		}
 	}
 	if ng := c.MustFunc(pkgRLStoreFC, "NewGlobalFlowControl"); ng != nil {
-		for _, ci := range eng.CallsTo(ng, pkgRLStoreFC+".newTokenBucketFlowControl") {
+		var ctorCalls []ssa.CallInstruction
+		if ctor != nil {
+			ctorCalls = eng.CallsToFn(ng, ctor)
+		}
+		for _, ci := range ctorCalls {
 			a := eng.Args(ci)
 			ok := len(a) == 4 && eng.FieldLoadOf(a[2], pkgV1alpha1+".TokenBucketFlowControlSchema", "QPS") && eng.FieldLoadOf(a[3], pkgV1alpha1+".TokenBucketFlowControlSchema", "Burst") &&
 				pathHas(a[2], "GlobalTokenBucket") && pathHas(a[3], "GlobalTokenBucket")
